@@ -157,7 +157,7 @@ def check(case):
         entry.fit(fa, X, y, w)
         np.random.seed(case["seed"])
         entry.fit(fb, *R.materialize(data))
-        Z = R.subset(X, list(range(min(6, R.nrows(X)))))
+        Z = entry.probe(data, X, y)
         np.random.seed(case["seed"] + 1)
         pa = R.fingerprint(entry, fa, Z)
         np.random.seed(case["seed"] + 1)
